@@ -332,6 +332,10 @@ const NAME_QUERIES: &[&str] = &[
     "SELECT MAX(v), MAX(v) + 1, MIN(w) AS p1 FROM t", "SELECT v + 1, COUNT(*) FROM t GROUP BY v + 1", "SELECT * FROM t", "SELECT DISTINCT k, k FROM t",
     "SELECT r, r * 2.5, r / 3.0 FROM t WHERE r IS NOT NULL", "SELECT AVG(r), SUM(r), STDDEV(v), VARIANCE(r) FROM t", "SELECT create_array(r, 0.1), k FROM t",
     // conditions that are not BOOLEAN (D69): the run reports an error on the first row / group where such a condition is evaluated and not NULL
+    // `*` next to other items (a run-time error in the code: never silently the wildcard alone), qualified GROUP BY keys keep their
+    // qualified names, an aliased item before an unnamed one (p<i> counts positions), `input` first among several items
+    "SELECT *, k FROM t", "SELECT *, input FROM t", "SELECT *, nosuch FROM t", "SELECT k, * FROM t", "SELECT t.k, COUNT(*) AS n FROM t GROUP BY t.k", "SELECT t.k, t.v, SUM(w) FROM t GROUP BY t.k, t.v",
+    "SELECT k AS n, v + 1 FROM t", "SELECT input, k FROM t", "SELECT input, v + w FROM t", "SELECT k AS input, v FROM t", "SELECT w AS v, v AS w, COUNT(*) FROM t GROUP BY v, w",
     "SELECT k FROM t WHERE v + 1", "SELECT k, v FROM t WHERE s", "SELECT k, (CASE WHEN v THEN 1 ELSE 0 END) AS c FROM t", "SELECT k, v AND w > 0 FROM t",
     "SELECT k, COUNT(*) FROM t GROUP BY k HAVING SUM(v)", "SELECT COUNT(*) FROM t WHERE w", "SELECT k, w > 0 OR v FROM t",
 ];
